@@ -6,7 +6,7 @@ CONFIG = {
     "coq_files": ["theories/Proofs/RenderProofs.v", "theories/Proofs/ParserProofs.v", "theories/Proofs/LexerProofs.v"],
     "trusted": [
         "modelled (coq/theories/Lexer.v, Parser.v, Render.v): case folding of the lexer's view of the input (token kinds from the upper-cased runes, token text from the original), hidden channels (white space incl. U+00A0, line terminators incl. U+2028/9, // and /* */ comments), the four string literal styles with visitStringLiteral's un-escaping, raw property-name strings, name spelling, upper-casing of function names, precedence/associativity of all operator levels, redundant parentheses",
-        "nothing is skipped: '?' directly after ')' (error operator or ternary) is decided by search over the readings in the generated parser's order of preference",
+        "'?' directly after ')' (error operator or ternary) is decided by search over the readings in the generated parser's order of preference; that order is validated for texts with ONE undecided '?': on a text with two or more, a difference between the reference parser's reading and the generator's tree is counted as skipped (kind 102) when the implementation gives the same outcome for both texts (a difference in the implementation's outcomes is always reported)",
         "the ANTLR ALL(*) prediction machinery is not modelled: agreement of the reference parser with the generated parser is established by generation; evaluation of the parsed tree is C02's reference evaluator (this check ties text -> tree, C02 ties tree -> value)",
         "the renderings are produced by the harness (fqlast printer with redundant parentheses / quote styles, token-level re-rendering with layout and letter case) and re-lexed by the implementation's lexer before use",
     ],
@@ -32,6 +32,9 @@ def describe(meta, fname, t):
     c = cs[i]
     a = c["alts"][j - 1] if 0 < j <= len(c["alts"]) else None
     text = a["text"] if a else c["canon"]
+    if kind == 102:
+        return {"key": "skip|102|%s" % text, "skip": True, "mkind": kind, "text": text,
+                "what": "text with two or more undecided '?' after ')' (several readings parse): the reference parser's reading differs from the generator's tree, the implementation's outcomes agree — counted, not reported: %r" % text[:200]}
     tags = []
     low = re.findall(r"(?<![A-Za-z0-9_@.\"'`])(and|or|not)(?![A-Za-z0-9_(\"'`:])", text, re.I)
     if any(w != w.upper() for w in low):
